@@ -461,6 +461,14 @@ func runC11(c *core.Ctx) {
 		}
 		c.Nontrivial([]byte("parser"), in)
 		consumed := in[:len(in)-len(rem)]
+		if i%2 == 1 {
+			// the read-only queries a caller makes before serialising leave the mapping as it was read
+			mp.HasDuplicateKeys()
+			mp.ToGoMap()
+			mp.Values()
+			mp.IsValid()
+			_ = lib.Observe(&mp, lib.ObserveOpts{Depth: 1})
+		}
 		if ser := mp.Data(); !bytes.Equal(ser, consumed) {
 			c.Violate("data.ReadMapping", "parsed-without-error-but-reserialises-differently", gen.Shape{"class": class}, in, describeDiff(consumed, ser))
 		}
